@@ -32,6 +32,8 @@ def spec_sort_list(ty):
         return [B]
     if k == "arr":
         dt, nd = ty[1], ty[2]
+        if dt == "xfloat":
+            return [arr_sort(R, nd), arr_sort(B, nd), arr_sort(B, nd)]  # values, nan flags, -inf flags
         if dt in ("float", "f8", "f4"):
             return [arr_sort(R, nd), arr_sort(B, nd)]  # values, nan flags
         if dt in ("bool", "b1"):
@@ -100,6 +102,10 @@ class Engine:
                 raise VerifError("spec argument: expected array, got %r" % (v,))
             if len(v.shape) != ty[2]:
                 raise VerifError("spec argument rank mismatch")
+            if ty[1] == "xfloat":
+                if not is_float_dtype(v.dtype):
+                    raise VerifError("spec argument: expected float array")
+                return [v.comps["v"], v.comps["nan"], v.comps["ninf"]]
             if ty[1] in ("float", "f8", "f4"):
                 if not is_float_dtype(v.dtype):
                     raise VerifError("spec argument: expected float array")
@@ -149,6 +155,8 @@ class Engine:
                 v = fv.arr_value(st, v)
             nd = ty[2]
             shape = [z3.IntVal(0)] * nd
+            if ty[1] == "xfloat":
+                return SArrVal("f8", shape, {"v": v.comps["v"], "nan": v.comps["nan"], "ninf": v.comps["ninf"]})
             if ty[1] in ("float", "f8", "f4"):
                 return SArrVal("f8", shape, {"v": v.comps["v"], "nan": v.comps["nan"], "ninf": const_arr(FALSE, nd)})
             if ty[1] in ("bool", "b1"):
@@ -372,6 +380,8 @@ class Engine:
         if kind == "lemma":
             return self.call_lemma(fv, st, obj, node)
         if kind == "contract":
+            if obj.options.get("inline"):
+                return self.call_inline(fv, st, obj, node, prog)
             return self.call_contract(fv, st, obj, node, prog)
         if kind == "external":
             return X.EXTERNALS[obj](self, fv, st, node, prog)
@@ -415,6 +425,32 @@ class Engine:
         for e in ld.ensures:
             st.assume(fv.to_bool(fv.ev(e, s, False)))
         return NONE
+
+    def call_inline(self, fv, st, cd, node, prog):
+        """@contract(..., inline=True): the callee is a single `return <expr>`; its expression is re-read
+        from the source and evaluated at the call site with the parameters bound to the arguments
+        (no contract abstraction: every obligation of the expression is generated in the caller)."""
+        fn, _, _, _ = self.src.function(cd.qualname)
+        body = [s_ for s_ in fn.body if not (isinstance(s_, ast.Expr) and isinstance(s_.value, ast.Constant) and isinstance(s_.value.value, str))]
+        if len(body) != 1 or not isinstance(body[0], ast.Return) or body[0].value is None:
+            raise VerifError("inline contract %s: the function is not a single return expression" % cd.qualname)
+        X.USED.add("inlined at call sites (single return expression re-read from source): %s" % cd.qualname)
+        pnames, bound = self.bind_args(fv, st, cd, node, prog)
+        cs = State()
+        cs.env = dict(bound)
+        cs.heap = st.heap
+        cs.assumes = st.assumes
+        cs.guards = st.guards
+        cs.funcs = st.funcs
+        cs.pending_ovf = st.pending_ovf
+        cs.old = st.old
+        cs.labels = st.labels
+        saved = fv.modname
+        fv.modname = cd.qualname.rsplit(".", 1)[0]
+        try:
+            return fv.ev(body[0].value, cs, prog)
+        finally:
+            fv.modname = saved
 
     def bind_args(self, fv, st, cd, node, prog):
         fn, _, _, _ = self.src.function(cd.qualname)
